@@ -150,56 +150,49 @@ def run(ck):
     unregs = [cs for cs in T.calls(lb, name="unregister", trait="EventDispatcher", self_kind=("dyn",)) if cs.bb in dl.blocks]
     gets = [cs for cs in T.calls(lb, name=("get", "get_mut"), path="SourceList") if cs.bb in dl.blocks]
     pe_ok, pe_err, _ = T.result_split(lb, dl.pe.bb)
+    # The check is read off the CFG (Option / Result combinators are expanded by the loader, so `.ok().map(..)
+    # .unwrap_or(true)` and a hand-written match look the same): after process_events the slot is looked up again;
+    # the 'removed' edges are the Err edge of that lookup (slot freed and reused: generation mismatch) and the edge
+    # on which the slot's `source` was found empty; the unregister is reachable through those edges only.
+    after_pe = lb.reachable([dl.pe.to], removed_blocks=[dl.header]) if dl.pe.to is not None else set()
     final = None
-    final_score = -1
-    for u in unregs:
-        for g in gets:
-            # u is decided by a switch whose operand derives from g
-            for i, blk in enumerate(lb.blocks):
-                t = blk["term"]
-                if t["t"] != "switch" or i not in dl.blocks or lb.is_cleanup(i):
-                    continue
-                if not T.tainted_by_call(lb, t["on"], [g.bb]):
-                    continue
-                e, tr, fa = lb.bool_edges(i)
-                for edges, pol in ((tr, True), (fa, False)):
-                    ed = [(i, x) for x in edges]
-                    if ed and T.reachable_only_via(lb, u.bb, ed, frm=[g.to], barrier=[dl.header]) and u.bb in lb.reachable([x for _, x in ed]):
-                        cand = (u, g, i, pol, ed)
-                        # several switches may be tainted by the lookup (drop elaboration, inlined helpers):
-                        # the removed-check is the one whose selected edge always leads to the unregister
-                        score = (T.t2_all_exits(lb, [x for _, x in ed], [u.bb], exits={dl.header}) is None) + (T.eval_combinators(lb, t["on"], {g.bb: "Err"}) == ("const", 1 if pol else 0))
-                        if final is None or score > final_score:
-                            final, final_score = cand, score
+    for g in gets:
+        if g.bb not in after_pe:
+            continue
+        g_ok, g_err, _ = T.result_split(lb, g.bb)
+        e_miss = list(g_err)
+        e_empty = []
+        for c2 in T.calls(lb, name=("is_none", "is_some")):
+            if c2.bb in dl.blocks and not lb.is_cleanup(c2.bb) and T.path_has(lb, c2.args[0], ".source") and T.tainted_by_call(lb, c2.args[0], [g.bb]):
+                tr, fa = T.bool_split(lb, c2.bb)
+                e_empty += tr if c2.name == "is_none" else fa
+        for sw in T.switches_on_expr(lb, lambda e: e[0] == "discr"):
+            if sw not in dl.blocks:
+                continue
+            e = lb.expr(lb.blocks[sw]["term"]["on"])
+            if any(r == ("call", g.bb) and ".source" in p and p[-1] in (".source", "*") for r, p in lb.resolve(e[2])):
+                e_empty += T.discr_edges(lb, sw, 0)
+        for u in unregs:
+            if u.bb not in lb.reachable([g.to], removed_blocks=[dl.header]):
+                continue
+            if (e_miss or e_empty) and T.reachable_only_via(lb, u.bb, e_miss + e_empty, frm=[g.to], barrier=[dl.header]):
+                final = (u, g, e_miss, e_empty)
+                break
+        if final:
+            break
     if final is None:
         ck.violation("2", "T2-all-exits", lb, "post-dispatch-removed-check", "the batch loop has no 'slot empty => unregister' check after process_events: a source removed from inside its own callback (where unregister is deferred) would stay registered", site=lb.where(dl.pe.bb))
     else:
-        u, g, sw, pol, ed = final
+        u, g, e_miss, e_empty = final
         starts = [x for _, x in pe_ok] or [dl.pe.to]
         bad = T.t2_all_exits(lb, starts, [g.bb], exits={dl.header})
         ck.verdict(bad is None, "2", "T2-all-exits", lb, "processed=>removed-check", "every path from a successful process_events to the next iteration passes the 'was it removed?' check", "an iteration can finish after a successful process_events without checking whether the source was removed from inside its callback", site=lb.where(g.bb), path=path_descr(lb, bad) if bad else None)
         ck.verdict(T.resolves_to_call(lb, g.args[1], [cs.bb for cs in T.calls(lb, name="forget_sub_id")]) or T.path_has(lb, g.args[1], ".token"), "2", "T6-provenance", lb, "removed-check/this-token", "the check looks up this iteration's token", "the removed-check does not look up this iteration's token", site=lb.where(g.bb))
-        # lookup miss (slot reused) => unregister; slot empty => unregister
-        on = lb.blocks[sw]["term"]["on"]
-        v_miss = T.eval_combinators(lb, on, {g.bb: "Err"})
-        want = ("const", 1 if pol else 0)
-        miss_ok = v_miss == want
-        if not miss_ok:
-            # CFG spelling: from the Err edge of the lookup every path to the next iteration unregisters
-            o, e, _ = T.result_split(lb, g.bb)
-            if e:
-                miss_ok = T.t2_all_exits(lb, [x for _, x in e], [u.bb], exits={dl.header}, removed_edges=o) is None
-        ck.verdict(miss_ok, "2", "T4-guarded-by", lb, "lookup-miss=>unregister", "when the lookup misses (the slot was freed and immediately reused by a new source) the processed dispatcher is unregistered", "when the slot was already reused by a new source the removed dispatcher is not unregistered (it stays in the poller / lifecycle set)", site=lb.where(sw))
-        empties = False
-        for cb in [c for cs in lb.calls() if cs.bb in dl.blocks and T.tainted_by_call(lb, cs.dest if False else {"c": cs.dest}, [g.bb]) for c in T.closure_bodies_passed(lb, cs)]:
-            for c2 in T.calls(cb, name=("is_none", "is_some")):
-                if T.path_has(cb, c2.args[0], ".source"):
-                    empties = True
-        for c2 in T.calls(lb, name=("is_none", "is_some")):
-            if c2.bb in dl.blocks and T.path_has(lb, c2.args[0], ".source") and T.tainted_by_call(lb, c2.args[0], [g.bb]):
-                empties = True
-        ck.verdict(empties, "2", "T6-provenance", lb, "removed-check/tests-slot-emptiness", "the check tests whether the looked-up slot is empty", "the removed-check does not test the slot's `source` for emptiness", site=lb.where(g.bb))
-        bad = T.t2_all_exits(lb, [x for _, x in ed], [u.bb], exits={dl.header})
+        # lookup miss (slot reused) => unregister
+        miss_ok = bool(e_miss) and T.t2_all_exits(lb, [x for _, x in e_miss], [u.bb], exits={dl.header}) is None
+        ck.verdict(miss_ok, "2", "T4-guarded-by", lb, "lookup-miss=>unregister", "when the lookup misses (the slot was freed and immediately reused by a new source) the processed dispatcher is unregistered", "when the slot was already reused by a new source the removed dispatcher is not unregistered (it stays in the poller / lifecycle set)", site=lb.where(g.bb))
+        ck.verdict(bool(e_empty), "2", "T6-provenance", lb, "removed-check/tests-slot-emptiness", "the check tests whether the looked-up slot is empty", "the removed-check does not test the slot's `source` for emptiness", site=lb.where(g.bb))
+        bad = T.t2_all_exits(lb, [x for _, x in e_empty], [u.bb], exits={dl.header}) if e_empty else [0]
         ck.verdict(bad is None, "2", "T2-all-exits", lb, "removed=>unregister", "on the 'removed' edge every path unregisters the processed dispatcher", "the 'removed' edge can reach the next iteration without unregistering", site=lb.where(u.bb))
         ck.verdict(lb.resolve(u.args[0]) == lb.resolve(dl.pe.args[0]), "2", "T6-provenance", lb, "removed=>unregister/receiver", "the dispatcher unregistered is the one that was processed", "the removed-check unregisters a different dispatcher", site=lb.where(u.bb))
 
